@@ -47,6 +47,7 @@ vars == <<l, cur, hist, txh, nIss, dig>>
 
 \* ------------------------------------------------------------------ adaptors
 ObsBal(o) == [a \in TAddrs |-> [t \in TAssets |-> o[a][t]]]
+ObsBalOf(S) == S.bal
 ObsRates(ob) == [t \in TAssets |-> IF t \in DOMAIN ob.rates THEN ob.rates[t] ELSE BZero]
 
 \* merge the history delta of a block into hist: hash -> [h, exec, rows, txs]
@@ -86,6 +87,12 @@ Compare(S, res, in, ob, hist2) ==
                 \cup (IF DA \cap res.info.stakers # {} /\ DA \cap (batchA \cup winnersA \cup special) = {} THEN {<<"C14", <<"staking payout differs", h, DA \cap res.info.stakers>>>>} ELSE {})
                 \cup (IF DA \cap special # {} /\ DA \cap (batchA \cup winnersA) = {} THEN {<<"C15", <<"scheduled issuance differs", h, DA \cap special>>>>} ELSE {})
                 \cup (IF DA \cap batchA # {} /\ DA \cap (winnersA \cup special \cup res.info.stakers) = {} THEN {<<"C03", <<"batch effects are not all-or-nothing / exact", h, DA \cap batchA>>>>} ELSE {})
+      \* C06: an address whose balance of some asset grew by exactly 2, 3 or 4 times the amount the block's events credit to it
+      \* (an entry's effect applied more than once); only for parties of batches considered in this block
+      pre == ObsBal(ObsBalOf(S))
+      multA == {d \in D : d[1] \in batchA /\ BLt(pre[d[1]][d[2]], Sn.bal[d[1]][d[2]]) /\ BLt(Sn.bal[d[1]][d[2]], obal[d[1]][d[2]])
+                          /\ \E k \in 2..4 : BSub(obal[d[1]][d[2]], pre[d[1]][d[2]]) = BMulS(BSub(Sn.bal[d[1]][d[2]], pre[d[1]][d[2]]), k)}
+      multIss == IF multA # {} /\ ~res.info.taint THEN {<<"C06", <<"the effect of an entry was applied more than once (credit is an exact multiple of the single effect)", h, multA>>>>} ELSE {}
       outIss == IF Len(ob.outside) > 0 THEN {<<"C04", <<"value outside the scenario universe", h, ob.outside>>>>} ELSE {}
       \* converted amounts recorded in history for batches executed in this block (C07, C17)
       toIss == UNION {IF x \in DOMAIN hist2 /\ HistTo(hist2[x]) # res.info.to[x] /\ res.info.pegOut = <<>>
@@ -125,7 +132,7 @@ Compare(S, res, in, ob, hist2) ==
                        THEN {<<"C16", <<"recorded PEG yield / refund differs", h, o.hash, o.idx>>>>} ELSE {}
                        : i \in 1..Len(res.info.pegOut)}
       syncIss == IF ob.synced # h THEN {<<"C02", <<"synced height is not the block height", h, ob.synced>>>>} ELSE {}
-  IN  balIss \cup outIss \cup toIss \cup holdIss \cup relIss \cup wIss \cup snapIss \cup syncIss \cup mintIss \cup bankIss \cup pegIss
+  IN  balIss \cup multIss \cup outIss \cup toIss \cup holdIss \cup relIss \cup wIss \cup snapIss \cup syncIss \cup mintIss \cup bankIss \cup pegIss
 
 \* ------------------------------------------------------------------ C17: history replays to balances
 \* effect of one recorded action on the balances
